@@ -15,6 +15,45 @@ KINDS = "sec"  # s = source, e = sensor, c = collection
 
 
 MAX_OBJS = 40  # no further copies once a history has this many objects
+JUNK_BASE = 900  # ids from here on are not objects: entries of a foreign type in an argument list
+
+
+def arg(objs, i):
+    """the object with number `i`, or an entry that is no magpylib object"""
+    return objs[i] if i < len(objs) else [3, None, 2.5, 7][(i - JUNK_BASE) % 4]
+
+
+def count_setter(stats, op):
+    """coverage of the all-or-nothing setters: how many assignments, how many refused, refused by which construction,
+    how many of the refused ones on a collection that had children (so that the restore had something to put back)"""
+    if op["op"] not in ("children", "typed"):
+        return
+    stats["setter_assignments"] = stats.get("setter_assignments", 0) + 1
+    if op.get("tag") == "err":
+        stats["rejected_setter_assignments"] = stats.get("rejected_setter_assignments", 0) + 1
+        d = stats.setdefault("rejected_setter_by_construction", {})
+        d[str(op.get("why"))] = d.get(str(op.get("why")), 0) + 1
+        if op.get("had_children"):
+            stats["rejected_setter_on_populated_collection"] = stats.get("rejected_setter_on_populated_collection", 0) + 1
+
+
+def setter_call(objs, op):
+    """run `c.children = [...]` / `c.sources = [...]` / ... and check what happens to the IDENTITY of the `_children` list:
+    a refused assignment puts the old list object back, an accepted one installs a new list.  Returns None or a description."""
+    c = objs[op["c"]]
+    old = c._children  # kept alive: ids are not reused
+    op["had_children"] = bool(old)
+    op.pop("list_fact", None)
+    attr = "children" if op["op"] == "children" else {"s": "sources", "e": "sensors", "c": "collections"}[op["k"]]
+    try:
+        setattr(c, attr, [arg(objs, i) for i in op["objs"]])
+    except Exception:
+        if c._children is not old:
+            op["list_fact"] = "refused assignment left a different _children list object"
+        raise
+    if c._children is old:
+        op["list_fact"] = "accepted assignment kept the old _children list object"
+    return None
 
 
 def gen_op(rng, cur_kinds, p_bad=0.06, children_of=None, p_copy=0.08):
@@ -72,10 +111,34 @@ def gen_op(rng, cur_kinds, p_bad=0.06, children_of=None, p_copy=0.08):
                 "rec": rng.random() < 0.6, "raise": rng.random() < 0.6}
     if r < 0.70:
         return {"op": "parent", "o": rng.randrange(cur_n), "p": rng.choice([-1] + colls + colls)}
-    if r < 0.78:
-        return {"op": "children", "c": rng.choice(colls), "objs": pick(rng.choice([0, 1, 2, 3]))}
     if r < 0.92:
-        return {"op": "typed", "c": rng.choice(colls), "k": rng.choice("sec"), "objs": pick(rng.choice([0, 1, 2, 3]))}
+        # assignments to children / sources / sensors / collections; 45 % are built to be REFUSED part-way (after the old
+        # children were unlinked): an entry that is no magpylib object (ids >= JUNK_BASE), the collection itself, one of
+        # its ancestors, an entry given twice — by preference on a collection that HAS children, so that "nothing changed" is not trivial
+        full = [c for c in colls if children_of and children_of.get(c)]
+        c = rng.choice(full) if full and rng.random() < 0.7 else rng.choice(colls)
+        objs = pick(rng.choice([0, 1, 2, 3]))
+        why = None
+        if rng.random() < 0.45:
+            why = rng.choice(["junk", "junk", "self", "ancestor", "twice"])
+            if why == "junk":
+                objs.insert(rng.randrange(len(objs) + 1), JUNK_BASE + rng.randrange(4))
+            elif why == "self":
+                objs.insert(rng.randrange(len(objs) + 1), c)
+            elif why == "ancestor":
+                par = {x: q for q, xs in (children_of or {}).items() for x in xs}
+                chain, q = [], c
+                while q in par and len(chain) < 64:
+                    q = par[q]
+                    chain.append(q)
+                objs.insert(rng.randrange(len(objs) + 1), rng.choice(chain) if chain else c)
+            else:
+                x = rng.choice(objs) if objs else rng.randrange(cur_n)
+                objs = objs + [x] if objs else [x, x]
+                rng.shuffle(objs)
+        if r < 0.78:
+            return {"op": "children", "c": c, "objs": objs, "why": why}
+        return {"op": "typed", "c": c, "k": rng.choice("sec"), "objs": objs, "why": why}
     return {"op": "plus", "a": rng.randrange(cur_n), "b": rng.randrange(cur_n)}
 
 
@@ -310,11 +373,8 @@ def real_lines(h, rng=None, n_ops=0, p_copy=0.08):
                 objs[op["c"]].remove(*[objs[i] for i in op["objs"]], recursive=op["rec"], errors="raise" if op["raise"] else "ignore")
             elif k == "parent":
                 objs[op["o"]].parent = None if op["p"] < 0 else objs[op["p"]]
-            elif k == "children":
-                objs[op["c"]].children = [objs[i] for i in op["objs"]]
-            elif k == "typed":
-                attr = {"s": "sources", "e": "sensors", "c": "collections"}[op["k"]]
-                setattr(objs[op["c"]], attr, [objs[i] for i in op["objs"]])
+            elif k in ("children", "typed"):
+                setter_call(objs, op)
             elif k == "plus":
                 new = objs[op["a"]] + objs[op["b"]]
                 objs.append(new)
@@ -341,6 +401,9 @@ def real_lines(h, rng=None, n_ops=0, p_copy=0.08):
             tag = "err"
             errs.append(f"{k}:Foreign:{type(e).__name__}")
         out.append(f"{tag} " + dump_real(objs))
+        op["tag"] = tag
+        if bad is None and op.pop("list_fact", None):
+            bad = "the _children list object after a children / typed assignment is not the one the code promises (old one on refusal, new one on success)"
         if bad is None:
             try:
                 bad = invariant_real(objs)
@@ -372,6 +435,7 @@ def run_stream(ctx, n_hist, n_ops, want_model=True, p_copy=0.08):
         clone_ids = set()
         for op in h["ops"][: len(rl) - 1]:
             stats["op_kinds"][op["op"]] = stats["op_kinds"].get(op["op"], 0) + 1
+            count_setter(stats, op)
             mentioned = [op[key] for key in ("c", "o", "p", "a", "b") if key in op] + list(op.get("objs", []))
             if clone_ids.intersection(mentioned):
                 stats["ops_addressing_clones"] += 1
@@ -657,6 +721,8 @@ def dump_attr_real(objs, canon, as_lazy=()):
             if a is not None:
                 flat = np.asarray(a).reshape(-1)
                 line += f" [{c}@{canon.of(a)} i{len(flat)} " + " ".join(str(int(x)) for x in snap_vec(flat)) + "]"
+        if "_children" in vars(o):
+            line += f" [7@{canon.of(o._children)} l]"
         sc = []
         for k in CLS_SCAL[cls]:
             v = vars(o)["_" + SCAL_ATTR[k]]
@@ -729,6 +795,11 @@ def gen_attr_op(rng, objs, children_of):
     start = None if rng.random() < 0.5 else rng.randint(-4, 4)
     if r < 0.22:
         op = gen_op(rng, kinds, p_bad=0.03, children_of=children_of, p_copy=0.0)
+        if rng.random() < 0.4:  # every third tree operation is an assignment to children / sources / sensors / collections
+            for _ in range(40):
+                if op["op"] in ("children", "typed"):
+                    break
+                op = gen_op(rng, kinds, p_bad=0.0, children_of=children_of, p_copy=0.0)
         return op
     if r < 0.36:
         return {"op": "amove", "x": x, "inp": gen_pathin_vec(rng), "start": start, "pop": populated}
@@ -917,10 +988,8 @@ def attr_real_lines(h, rng=None, n_ops=0):
                 objs[op["c"]].remove(*[objs[i] for i in op["objs"]], recursive=op["rec"], errors="raise" if op["raise"] else "ignore")
             elif k == "parent":
                 objs[op["o"]].parent = None if op["p"] < 0 else objs[op["p"]]
-            elif k == "children":
-                objs[op["c"]].children = [objs[i] for i in op["objs"]]
-            elif k == "typed":
-                setattr(objs[op["c"]], {"s": "sources", "e": "sensors", "c": "collections"}[op["k"]], [objs[i] for i in op["objs"]])
+            elif k in ("children", "typed"):
+                setter_call(objs, op)
             elif k == "plus":
                 objs.append(objs[op["a"]] + objs[op["b"]])
             elif k == "bad":
@@ -949,6 +1018,9 @@ def attr_real_lines(h, rng=None, n_ops=0):
             out.append(all_views_real(objs))
         except Exception as e:  # noqa: BLE001
             out.append(f"views raised {type(e).__name__}")
+        op["tag"] = tag
+        if bad is None and op.pop("list_fact", None):
+            bad = "the _children list object after a children / typed assignment is not the one the code promises (old one on refusal, new one on success)"
         if bad is None:
             bad = arrays_overlap(objs)
         if bad:
@@ -982,6 +1054,7 @@ def run_attr_stream(ctx, n_hist, n_ops, want_model=True):
         for op in h["ops"][:n_done]:
             kk = op["op"]
             stats["op_kinds"][kk] = stats["op_kinds"].get(kk, 0) + 1
+            count_setter(stats, op)
             mentioned = [op[key] for key in ("c", "o", "p", "a", "b", "x") if key in op and isinstance(op[key], int)] + list(op.get("objs", []))
             if clone_ids.intersection(mentioned):
                 stats["ops_after_copy_on_copy_side"] += 1
